@@ -3,12 +3,23 @@ const fs = require('fs');
 const path = require('path');
 const repo = process.env.VERIF_REPO || '/repo';
 const mod = require(path.join(__dirname, process.argv[2] + '.js'));
+let on_uncaught = null;
+let late_uncaught = 0;
+process.on('uncaughtException', (e) => {
+    // thrown by a stream handler of the code under test: the outcome of the case in progress; a straggler of an earlier case is counted only
+    if (on_uncaught !== null) { const f = on_uncaught; on_uncaught = null; f(e); } else { late_uncaught += 1; }
+});
 (async () => {
     const cases = JSON.parse(fs.readFileSync(process.argv[3], 'utf-8'));
     const out = [];
     for (const c of cases) {
         try {
-            out.push(await mod.run_case(c, repo));
+            // an exception thrown inside a stream 'data' / 'end' handler of the code under test cannot be caught around the await:
+            // it surfaces as an uncaughtException; it is reported as the outcome of the case in progress instead of killing the driver
+            out.push(await new Promise((resolve, reject) => {
+                on_uncaught = (e) => reject(e);
+                mod.run_case(c, repo).then((r) => { on_uncaught = null; resolve(r); }, (e) => { on_uncaught = null; reject(e); });
+            }));
         } catch (e) {
             out.push({driver_exception: (e && e.constructor && e.constructor.name) || 'Error', msg: String(e && e.message || e).slice(0, 300)});
         }
